@@ -502,6 +502,29 @@ def S_C12b():
     return fm['image'].filename != 'd/.MGZ'
 
 
+def S_C04d():
+    """NIfTI-2 qform of an exact 180 degree rotation about a non-coordinate axis: get_qform raised
+    ValueError('w2 should be positive') or came back with an error of ~sqrt(eps64)."""
+    nib = _nib()
+    eps = float(np.finfo(np.float64).eps)
+    bad = 0
+    for k in range(1, 201):
+        v = np.array([np.sin(1.7 * k) + 0.3, np.cos(2.9 * k) - 0.2, np.sin(0.61 * k + 1.0) + 0.1])
+        v /= np.linalg.norm(v)
+        A = np.eye(4)
+        A[:3, :3] = (2.0 * np.outer(v, v) - np.eye(3)) @ np.diag([1.0, 2.0, 3.0])
+        h = nib.Nifti2Header()
+        h.set_qform(A, 1)
+        try:
+            Q = h.get_qform()
+        except ValueError:
+            bad += 1
+            continue
+        if (np.abs(Q - A)[:3, :3].max(axis=0) / np.array([1.0, 2.0, 3.0])).max() > 64 * eps:
+            bad += 1
+    return bad > 0
+
+
 PROBES = {n: f for n, f in list(globals().items()) if n.startswith('S_C') and callable(f)}
 
 if __name__ == '__main__':
